@@ -440,7 +440,119 @@ def rule_p(ctx):
     rep.floor('(key, example) pair sites classified', classified, 12)
 
 
+def rule_mv(ctx):
+    """a memoised keys() is stored only after its validation: no `raise` may follow the memo store inside the
+    memo block (else a refused first call leaves the invalid value cached and the second call returns it)"""
+    rep = ctx.report
+    n = 0
+    for cls in K.family(ctx):
+        mem = cls.own('keys')
+        if mem is None or not mem.is_function:
+            continue
+        fn = mem.node
+        g = CFG(fn)
+        stores = [nd for nd in g.stmt_nodes() if nd.kind == 'stmt' and isinstance(nd.ast, (ast.Assign, ast.AugAssign))
+                  and any(A.is_self_attr(t) for t in (nd.ast.targets if isinstance(nd.ast, ast.Assign) else [nd.ast.target]))]
+        for st in stores:
+            n += 1
+            p = g.path_avoiding(st.id, lambda nd: nd.kind == 'stmt' and isinstance(nd.ast, (ast.Raise, ast.Assert)),
+                                None, edge_ok=normal)
+            ok = p is None
+            attr = [t.attr for t in (st.ast.targets if isinstance(st.ast, ast.Assign) else [st.ast.target])
+                    if A.is_self_attr(t)][0]
+            rep.ob('MV', K.key(cls, 'keys', 'memo-stored-after-validation(%s)' % attr), ok, st.ast,
+                   '' if ok else 'self.%s is stored before the validation that can still refuse it (`%s`): the first '
+                   'keys() call raises, but the invalid key tuple stays cached and later keys() / ds[key] calls use it '
+                   'silently' % (attr, A.short(p[-1].ast, 50)),
+                   path=[repr(x) for x in p if x.ast is not None] if p else None)
+    rep.floor('memo stores in keys()', n, 4)
+
+
+def rule_kw(ctx):
+    """string lookup in a multi-input stage: a part answers only for keys it lists itself"""
+    rep = ctx.report
+    sites = 0
+    for cls in K.family(ctx):
+        mem = cls.own('__getitem__')
+        if mem is None or not mem.is_function:
+            continue
+        fn = mem.node
+        item, arms = K.getitem_arms(fn)
+        _l, fctx = ctx.effects.local_effects(fn, cls, cls.module)
+        for arm in arms:
+            if not (arm['types'] and 'str' in arm['types'] and 'int' not in arm['types']):
+                continue
+            for loop in A.walk_stmts(arm['body']):
+                if not (isinstance(loop, ast.For) and fctx.kind(loop.iter) == 'DSSEQ' and isinstance(loop.target, ast.Name)):
+                    continue
+                part = loop.target.id
+                looks = [s for s in A.walk_stmts(loop.body) if isinstance(s, ast.Subscript) and A.is_name(s.value, part)
+                         and A.is_name(s.slice, item)]
+                for lk in looks:
+                    sites += 1
+                    guarded = False
+                    for test, branch in flow.guards_of(lk, loop):
+                        t, neg = A.strip_not(test)
+                        if isinstance(t, ast.Compare) and len(t.ops) == 1 and A.is_name(t.left, item) \
+                                and isinstance(t.comparators[0], ast.Call) and isinstance(t.comparators[0].func, ast.Attribute) \
+                                and t.comparators[0].func.attr == 'keys' and A.is_name(t.comparators[0].func.value, part):
+                            if (isinstance(t.ops[0], ast.In) and branch != neg) or (isinstance(t.ops[0], ast.NotIn) and branch == neg):
+                                guarded = True
+                    rep.ob('KW', K.key(cls, '__getitem__', 'part-answers-only-for-its-own-keys'), guarded, lk,
+                           '' if guarded else 'the key is looked up in a part without testing `%s in %s.keys()`: a part '
+                           'that is a selection of a larger source (slice, shard, sort, shuffle) forwards unknown keys to '
+                           'that source, so the stage returns the example of the wrong part instead of the one whose key '
+                           'it lists' % (item, part))
+    rep.floor('per-part key lookups', sites, 2)
+
+
+def rule_ks(ctx):
+    """a stage that lists a *selection* of its input's keys validates a string key against its own keys
+    before forwarding it to the input"""
+    rep = ctx.report
+    n = 0
+    for cls in K.family(ctx):
+        km = cls.resolve('keys')
+        gm = cls.own('__getitem__')
+        if km is None or gm is None or km.owner is ctx.repo.dataset_base() or not gm.is_function:
+            continue
+        if _pure_forward_keys(km):
+            continue
+        # own keys computed by selecting from the single input's keys
+        selects = any(isinstance(x, ast.Call) and isinstance(x.func, ast.Attribute) and x.func.attr == 'keys'
+                      and A.is_self_attr(x.func.value, INPUT_ATTR) for x in ast.walk(km.node))
+        if not selects:
+            continue
+        fn = gm.node
+        item, arms = K.getitem_arms(fn)
+        for arm in arms:
+            if not (arm['types'] and 'str' in arm['types'] and 'int' not in arm['types']):
+                continue
+            fwd = [s for s in A.walk_stmts(arm['body']) if isinstance(s, ast.Subscript)
+                   and A.is_self_attr(s.value, INPUT_ATTR) and A.is_name(s.slice, item)]
+            for f in fwd:
+                n += 1
+                checked = False
+                for s in A.walk_stmts(arm['body']):
+                    if isinstance(s, ast.If) and s.lineno <= f.lineno:
+                        for c in ast.walk(s.test):
+                            if isinstance(c, ast.Compare) and A.is_name(c.left, item) and isinstance(c.ops[0], (ast.In, ast.NotIn)) \
+                                    and 'keys' in A.src(c.comparators[0]) and 'input_dataset' not in A.src(c.comparators[0]):
+                                checked = True
+                    if isinstance(s, ast.Call) and isinstance(s.func, ast.Attribute) and s.func.attr == 'index' \
+                            and 'keys' in A.src(s.func.value) and s.args and A.is_name(s.args[0], item):
+                        checked = True
+                rep.ob('KS', K.key(cls, '__getitem__', 'str-key-validated-against-own-keys'), checked, f,
+                       '' if checked else 'keys() of this stage is a selection of the input keys, but ds[key] forwards any '
+                       'string to the input: a key that the stage does not list is answered with an example instead of a '
+                       'lookup error')
+    rep.floor('selecting stages with a string lookup', n, 1)
+
+
 def run(ctx):
+    rule_mv(ctx)
+    rule_kw(ctx)
+    rule_ks(ctx)
     rule_w(ctx)
     rule_w2(ctx)
     rule_t(ctx)
